@@ -1,3 +1,85 @@
+(* C02 property theorems: statements only, each closed by `exact`, with Print Assumptions.
+   Vocabulary (Proofs1): qget A i j = entry (0 outside), offnn n A = all off-diagonal entries of the n x n block are >= 0,
+   sumr a len f = f a + ... + f (a+len-1), qsum l = sum of the list. gthQ = the loop model _gth_solve_jit at exact Q. *)
 From Coq Require Import ZArith QArith List Bool Arith.
 From QE Require Import Base.Num C02.Model C02.Proofs.
 Import ListNotations.
+Open Scope Q_scope.
+
+(* no subtraction: for every n >= 1 and every matrix with non-negative off-diagonal entries (stochastic, generator,
+   reducible or not) the result has length n, every component is >= 0 and the components sum to 1 *)
+Theorem C02_gth_nonneg_normalised : forall n A, (1 <= n)%nat -> offnn n A ->
+  length (gthQ n A) = n /\ Forall (fun v => 0 <= v) (gthQ n A) /\ qsum (gthQ n A) == 1.
+Proof. intros n A Hn H. destruct (gth_correct n A Hn H) as [a [b [c _]]]. repeat split; assumption. Qed.
+Print Assumptions C02_gth_nonneg_normalised.
+
+(* stationarity x (A - diag(row sums)) = 0, written as the balance equation of every state j (censoring induction);
+   holds for reducible input too (early exit) *)
+Theorem C02_gth_stationary : forall n A, (1 <= n)%nat -> offnn n A ->
+  forall j, (j < n)%nat ->
+    sumr 0 n (fun i => if (i =? j)%nat then 0 else nth i (gthQ n A) 0 * qget A i j) ==
+    nth j (gthQ n A) 0 * sumr 0 n (fun l => if (l =? j)%nat then 0 else qget A j l).
+Proof. intros n A Hn H. destruct (gth_correct n A Hn H) as [_ [_ [_ d]]]. exact d. Qed.
+Print Assumptions C02_gth_stationary.
+
+(* stochastic matrix (unit row sums): x P = x *)
+Theorem C02_gth_stochastic : forall n P, (1 <= n)%nat -> offnn n P ->
+  (forall i, (i < n)%nat -> sumr 0 n (fun l => qget P i l) == 1) ->
+  forall j, (j < n)%nat -> sumr 0 n (fun i => nth i (gthQ n P) 0 * qget P i j) == nth j (gthQ n P) 0.
+Proof.
+  intros n P Hn H Hr j Hj. rewrite (gth_row_sums n P 1 Hn H Hr j Hj). ring.
+Qed.
+Print Assumptions C02_gth_stochastic.
+
+(* generator matrix (zero row sums): x Q = 0 *)
+Theorem C02_gth_generator : forall n G, (1 <= n)%nat -> offnn n G ->
+  (forall i, (i < n)%nat -> sumr 0 n (fun l => qget G i l) == 0) ->
+  forall j, (j < n)%nat -> sumr 0 n (fun i => nth i (gthQ n G) 0 * qget G i j) == 0.
+Proof.
+  intros n G Hn H Hr j Hj. rewrite (gth_row_sums n G 0 Hn H Hr j Hj). ring.
+Qed.
+Print Assumptions C02_gth_generator.
+
+(* MarkovChain._compute_stationary over Q, classes from the C03 specification model on the positive-entry graph:
+   exactly one row per recurrent class; every row has length n, is >= 0, sums to 1, is invariant under P and
+   vanishes outside its class. Partial: strict positivity inside the class (exact support) is not proved. *)
+Theorem C02_stationary_rows_partial : forall n P, (1 <= n)%nat ->
+  (forall i j, (i < n)%nat -> (j < n)%nat -> 0 <= qget P i j) ->
+  (forall i, (i < n)%nat -> sumr 0 n (fun l => qget P i l) == 1) ->
+  length (stationaryQ n P) = length (C03.Model.sink_spec n (@pos_edge Q NumQ P)) /\
+  forall r, In r (stationaryQ n P) -> exists c, In c (C03.Model.sink_spec n (@pos_edge Q NumQ P)) /\
+    length r = n /\ Forall (fun v => 0 <= v) r /\ qsum r == 1 /\
+    (forall j, (j < n)%nat -> sumr 0 n (fun i => nth i r 0 * qget P i j) == nth j r 0) /\
+    (forall i, (i < n)%nat -> ~ In i c -> nth i r 0 == 0).
+Proof. exact stationary_rows. Qed.
+Print Assumptions C02_stationary_rows_partial.
+
+(* not proved (decided by correspondence + exact Fraction oracle on every run):
+   - support: irreducible => every component > 0; reducible => the support is exactly one recurrent class;
+   - the floating-point accuracy (component-wise relative error n*1e-13) is measured, not proved. *)
+Definition C02_gth_support_full : Prop := forall n A, (1 <= n)%nat -> offnn n A ->
+  exists c, In c (C03.Model.sink_spec n (@pos_edge Q NumQ A)) /\
+    forall i, (i < n)%nat -> (0 < nth i (gthQ n A) 0 <-> In i c).
+Definition C02_stationary_rows_full : Prop := forall n P, (1 <= n)%nat ->
+  (forall i j, (i < n)%nat -> (j < n)%nat -> 0 <= qget P i j) ->
+  (forall i, (i < n)%nat -> sumr 0 n (fun l => qget P i l) == 1) ->
+  length (stationaryQ n P) = length (C03.Model.sink_spec n (@pos_edge Q NumQ P)) /\
+  forall r, In r (stationaryQ n P) ->
+    length r = n /\ Forall (fun v => 0 <= v) r /\ qsum r == 1 /\
+    (forall j, (j < n)%nat -> sumr 0 n (fun i => nth i r 0 * qget P i j) == nth j r 0) /\
+    exists c, In c (C03.Model.sink_spec n (@pos_edge Q NumQ P)) /\
+      forall i, (i < n)%nat -> (0 < nth i r 0 <-> In i c).
+
+(* hypotheses are satisfiable: an irreducible stochastic matrix and a reducible one (early exit) *)
+Definition ex_P : list (list Q) := [[1#2; 1#2; 0]; [1#4; 1#2; 1#4]; [0; 1#3; 2#3]].
+Example ex_offnn : offnn 3 ex_P.
+Proof.
+  intros i j Hi Hj _. destruct i as [|[|[|i]]]; [| | |exfalso; apply (Nat.nlt_0_r i); do 3 apply Nat.succ_lt_mono; exact Hi];
+  (destruct j as [|[|[|j]]]; [| | |exfalso; apply (Nat.nlt_0_r j); do 3 apply Nat.succ_lt_mono; exact Hj]); vm_compute; discriminate.
+Qed.
+Example ex_rows : forall i, (i < 3)%nat -> sumr 0 3 (fun l => qget ex_P i l) == 1.
+Proof.
+  intros i Hi. destruct i as [|[|[|i]]]; [| | |exfalso; apply (Nat.nlt_0_r i); do 3 apply Nat.succ_lt_mono; exact Hi]; vm_compute; reflexivity.
+Qed.
+Example ex_gth : gthQ 3 ex_P = [2#9; 4#9; 1#3] /\ gthQ 3 [[0; 1#2; 1#2]; [0; 1; 0]; [0; 0; 1]] = [0; 1; 0].
+Proof. vm_compute. split; reflexivity. Qed.
